@@ -134,6 +134,105 @@ func c14Points(c *Ctx, r *Rng) {
 	}
 }
 
+func init() {
+	replayers["c14.sm"] = func(c *Ctx, a []string) string {
+		res, ok := ed25519.VerifScalarMult(a[0], unhx(a[1]), unhx(a[2]), unhx(a[3]))
+		if !ok {
+			return "undecodable"
+		}
+		return "ok " + hxv(res)
+	}
+}
+
+// c14ScalarMult: the table-driven scalar multiplications (fixed base, variable base, double-scalar) and the clamped one, on
+// scalars built from digit patterns — 32-bit words and nibbles at the edges of the signed radix-16 and non-adjacent-form
+// recodings (…7777, …8888, …ffff, alternating, single bits), adjacent words that pass a carry — and on small-order,
+// non-canonical and ordinary points. The model answers from the RFC 8032 reference, math/big is the direct oracle (round 7:
+// a recoding carry lost only next to a 0x77777777 word; a fast path that mistakes the point of order two for the identity).
+func c14ScalarMult(c *Ctx, r *Rng) {
+	L, _ := new(big.Int).SetString("7237005577332262213973186563042994240857116359379907606001950938285454250989", 10)
+	words := []uint32{0x77777777, 0x88888888, 0x77777778, 0x87777777, 0x78888888, 0xffffffff, 0, 0x80000000, 0x7fffffff, 0x0f0f0f0f, 0xf0f0f0f0,
+		0x11111111, 0x0000001f, 0xfffffff0, 0x55555555, 0xaaaaaaaa, 1}
+	nibs := []byte{0, 7, 8, 15, 1, 9}
+	scalar := func() []byte {
+		b := make([]byte, 32)
+		switch r.IntN(4) {
+		case 0:
+			copy(b, r.Bytes(32))
+		case 1:
+			for i := 0; i < 32; i++ {
+				b[i] = nibs[r.IntN(len(nibs))] | nibs[r.IntN(len(nibs))]<<4
+			}
+		default:
+			for i := 0; i < 8; i++ {
+				w := words[r.IntN(len(words))]
+				if r.IntN(5) == 0 {
+					w = r.Uint32()
+				}
+				binary.LittleEndian.PutUint32(b[4*i:], w)
+			}
+		}
+		if r.IntN(4) != 0 {
+			b[31] &= 0x0f // below 2^252: the reduction modulo L leaves the pattern alone
+		}
+		return b
+	}
+	small := []string{
+		"0100000000000000000000000000000000000000000000000000000000000000", "ecffffffffffffffffffffffffffffffffffffffffffffffffffffffffffff7f",
+		"0000000000000000000000000000000000000000000000000000000000000000", "0000000000000000000000000000000000000000000000000000000000000080",
+		"26e8958fc2b227b045c3f489f2ef98f0d5dfac05d3c63339b13802886d53fc05", "c7176a703d4dd84fba3c0b760d10670f2a2053fa2c39ccc64ec7fd7792ac03fa",
+		"ecffffffffffffffffffffffffffffffffffffffffffffffffffffffffffffff", "eeffffffffffffffffffffffffffffffffffffffffffffffffffffffffffff7f",
+	}
+	point := func() []byte {
+		switch r.IntN(4) {
+		case 0:
+			return unhx(small[r.IntN(len(small))])
+		default:
+			return []byte(ed25519.NewKeyFromSeed(r.Bytes(32))[32:])
+		}
+	}
+	le := func(b []byte) *big.Int {
+		x := new(big.Int)
+		for i := len(b) - 1; i >= 0; i-- {
+			x.Lsh(x, 8).Or(x, big.NewInt(int64(b[i])))
+		}
+		return x
+	}
+	base := edDecodeLax(unhx("5866666666666666666666666666666666666666666666666666666666666666"))
+	n := c.Pick(150, 4000)
+	for i := 0; i < n; i++ {
+		a, b, A := scalar(), scalar(), point()
+		pa := edDecodeLax(A)
+		ka, kb := new(big.Int).Mod(le(a), L), new(big.Int).Mod(le(b), L)
+		for _, op := range []string{"base", "var", "double", "clamp"} {
+			out := c.Run("c14.sm", op, hx(a), hx(A), hx(b))
+			c.Count("scalarmult:" + op)
+			var want []byte
+			switch op {
+			case "base":
+				want = edEncode(edMul(ka, *base))
+			case "clamp":
+				k := le(a)
+				k.SetBit(k, 0, 0).SetBit(k, 1, 0).SetBit(k, 2, 0).SetBit(k, 255, 0).SetBit(k, 254, 1)
+				want = edEncode(edMul(new(big.Int).Mod(k, L), *base))
+			case "var":
+				if pa == nil {
+					c.Direct(out == "undecodable", "an encoding that is not a point was decoded", map[string]any{"A": hx(A)})
+					continue
+				}
+				want = edEncode(edMul(ka, *pa))
+			case "double":
+				if pa == nil {
+					continue
+				}
+				want = edEncode(edAdd(edMul(ka, *pa), edMul(kb, *base)))
+			}
+			c.Direct(out == "ok "+hxv(want), "scalar multiplication differs from the math/big Edwards reference",
+				map[string]any{"op": op, "a": hx(a), "A": hx(A), "b": hx(b), "impl": out, "want": hx(want)})
+		}
+	}
+}
+
 // edDecodeLax decodes as (*Point).SetBytes does: y is taken modulo p (values in [p, 2^255) are accepted), and x = 0 with the sign
 // bit set is accepted.
 func edDecodeLax(enc []byte) *edPt {
